@@ -46,7 +46,15 @@ import (
 	"github.com/google/certificate-transparency-go/x509"
 	"github.com/google/certificate-transparency-go/x509util"
 	"github.com/google/trillian/crypto/keyspb"
+	"google.golang.org/protobuf/types/known/timestamppb"
 )
+
+func fmtOff(d time.Duration) string {
+	if d >= 0 {
+		return "+" + d.Round(time.Second).String()
+	}
+	return d.Round(time.Second).String()
+}
 
 // ---------------------------------------------------------------------------
 // spaces
@@ -918,6 +926,54 @@ func TestCheck(t *testing.T) {
 		})
 		if pan, msg, stack := enum.Catch(func() { c.checkLogList(sp) }); pan {
 			r.Violation("harness-panic", msg+"\n"+stack, caseDesc{Phase: "loglist", Space: sp.name})
+		}
+	}
+	// phase 1b: windows placed around the wall clock (shards that are current, about to end, just
+	// begun): whatever the helper that picks a NotAfter for a configured log does with the time of
+	// day, its pick lies inside the window
+	{
+		day := 24 * time.Hour
+		offs := func(ds ...time.Duration) []*time.Duration {
+			out := []*time.Duration{nil}
+			for i := range ds {
+				out = append(out, &ds[i])
+			}
+			return out
+		}
+		starts := offs(-400*day, -2*day, -time.Hour, -time.Second, time.Second, time.Hour, 2*day)
+		limits := offs(-time.Hour, time.Second, time.Minute, time.Hour, day-time.Minute, day, day+time.Second, day+time.Hour, 2*day, 400*day)
+		now := time.Now()
+		for _, so := range starts {
+			for _, lo := range limits {
+				if so == nil && lo == nil || (so != nil && lo != nil && *lo <= *so) {
+					continue
+				}
+				cfg := &ctfepb.LogConfig{}
+				desc := "["
+				var st, li time.Time
+				if so != nil {
+					st = now.Add(*so)
+					cfg.NotAfterStart = timestamppb.New(st)
+					desc += "now" + fmtOff(*so)
+				}
+				desc += ", "
+				if lo != nil {
+					li = now.Add(*lo)
+					cfg.NotAfterLimit = timestamppb.New(li)
+					desc += "now" + fmtOff(*lo)
+				}
+				desc += ")"
+				r.Eval(1)
+				r.Nontrivial("now-window " + desc)
+				var na time.Time
+				var nerr error
+				if pan, msg, stack := enum.Catch(func() { na, nerr = integration.NotAfterForLog(cfg) }); pan {
+					r.Violation("panic NotAfterForLog", msg+"\n"+stack, caseDesc{Phase: "window-around-now", Shards: []string{desc}})
+				} else if nerr != nil || (so != nil && na.Before(st)) || (lo != nil && !na.Before(li)) {
+					r.Violation("integration NotAfterForLog picks an instant outside the window (window placed around the wall clock)",
+						fmt.Sprintf("NotAfterForLog(%s) at wall clock %s = now%s, err=%v", desc, now.UTC().Format(time.RFC3339), fmtOff(na.Sub(now)), nerr), caseDesc{Phase: "window-around-now", Shards: []string{desc}})
+				}
+			}
 		}
 	}
 	r.Set("instants_per_space", func() map[string]int {
